@@ -90,6 +90,12 @@ def main():
         obligations.append({"name": "judge executable builds", "kind": "correspondence", "ok": False, "detail": build_txt[-2000:]})
     for st in (streams if judge_ok else []):
         cfg, lines, kind = st["cfg"], st["lines"], st.get("kind", "judge")
+        if st.get("expand"):
+            # two-pass stream: the first (unjudged) run of the real code produces the bytes the second pass feeds back
+            exe0, err0 = build_harness.build(cfg.split("+")[0], REPO)
+            if not err0:
+                outs0, _ = run_harness(exe0, lines, ["--nobmi2"] if cfg.endswith("+nobmi2") else [])
+                if outs0: lines = lines + st["expand"](lines, outs0[1:])
         hargs = ["--threads", "4"] if kind == "threads" else []
         res = correspond(cfg, lines, log, harness_args=hargs, selfcheck=(kind == "selfcheck"))
         if kind == "threads" and res.get("crash") and "THREADS-DIFFER" in res["crash"]:
